@@ -432,6 +432,10 @@ class VQueue:
     def qsize(self):
         return len(self.q)
 
+    @property
+    def queue(self):        # queue.Queue exposes its deque under this name
+        return self.q
+
 
 class VBarrier:
     def __init__(self, sched, parties, action=None, timeout=None):
